@@ -380,6 +380,9 @@ def oracle_step(op, r, before, after, live_before, complete):
                     fails.append("stale-not-taken: after create the file holds %r, expected %r" % (after["files"][fid], want))
             elif fid < 100 and r[0] == "runtime" and not names_live_other and not (w == me):
                 fails.append("refused-stale: create refused although the file was absent/stale (%r)" % (cur,))
+            elif fid < 100 and r[0] == "runtime" and w is not None and w == me and w in live_before:
+                fails.append("refused-own: create refused although the pid file names this very process (%r): a master restarted under "
+                             "the pid its predecessor left in the file must take the file over" % (cur,))
             elif fid < 100 and r[0] == "exc" and not names_live_other:
                 fails.append("refused-stale: create failed with %s although the pid file was absent/stale (%r) and no live process owns it"
                              % (r[1], cur))
